@@ -515,7 +515,8 @@ impl Planner {
         }
         // B3d: lens spaces L(p, q) from the harness's own bipyramid construction
         // (pi1 = Z_p known a priori; verified by dsx::manifold_check + own H1)
-        let pmax = if thorough { 24 } else { 16 };
+        // (seeded defect S23 only shows for p >= 13, q >= 3 in ~1 % of runs)
+        let pmax = if thorough { 40 } else { 24 };
         for p in 3..=pmax {
             for q in 1..=p / 2 {
                 if gcd(p, q) != 1 {
@@ -526,7 +527,7 @@ impl Planner {
                     continue;
                 }
                 let text = l.to_text();
-                let reps = if thorough { 30 } else { 3 };
+                let reps = if thorough { 30 } else { 4 };
                 for r in 0..reps {
                     let (mut s, mut rng) = self.base_spec(&format!("L{}.{}/self", p, q), &text, Op::SimplifySelf);
                     if r > 0 {
